@@ -80,6 +80,8 @@ func runC02(p *core.Prog, r *core.Report) {
 	c02R10(p, r)
 	c02R11(p, r)
 	c02R12(p, r)
+	// what the getters of a fetched index return is not rewritten behind its back: list filters build fresh lists (shared with C03.R6)
+	c03R6(p, r, "C02.R13")
 }
 
 // rootedAt reports whether address a is (a field/element chain of) field `field` of receiver recv.
